@@ -71,7 +71,19 @@ def compare_run(ck, frontend, setname, table, contexts, run, expected, single=No
             continue
         if not match:
             got_masks = sorted({r[3] for _, r in cands if r[3] is not None})
-            ck.violate('C05.rows', f'{frontend}:{tclass}:{window_class(contexts[ci]["window"])}:wrong-rows',
+            kind = 'no-result'
+            if got_masks:
+                cand_rows = [[i for i, v in enumerate(m) if v == 'true'] for m in got_masks]
+                got_rows = min(cand_rows, key=lambda r: len(set(r) ^ set(rows)))      # the reported mask closest to the expected one
+                hi = contexts[ci]['window'][1]
+                at_ending = [i for i in range(table.n) if hi is not None and table.t[i] == hi]
+                if got_rows == sorted(set(rows) | set(at_ending)) and at_ending:
+                    kind = 'row-at-ending-included'
+                elif got_rows == list(range(table.n)):
+                    kind = 'window-ignored'
+                else:
+                    kind = 'other-rows'
+            ck.violate('C05.rows', f'{frontend}:{tclass}:{window_class(contexts[ci]["window"])}:wrong-rows:{kind}',
                        f'{label}: expected a result on rows {rows}; the stream reports ' + (f'rows masks {got_masks}' if cands else 'no result for this test'),
                        dict(set=setname))
             if len(cands) == 1 and tclass == 'duplicate-labels':
@@ -155,6 +167,13 @@ def run(ck):
     expected = expected_direct(ck.runner, bare, contexts)
     for fe in ('numpy', 'netcdf', 'pandas', 'xarray'):
         compare_run(ck, fe, 'no-aux-axes', bare, contexts, run_frontend(ck.runner, fe, bare, src), expected)
+    # no time axis at all: windows cannot be applied (the streams warn and skip the subset), time-dependent tests drop out
+    notime = Table(5, missing={'a': {2}}, with_axes=())
+    for cs in ([dict(window=(None, None), tests={'a': ['gross', 'spike', 'roc'], 'b': ['valid']})],):
+        src = make_config_source(cs)
+        expected = expected_direct(ck.runner, notime, cs)
+        for fe in ('numpy', 'netcdf', 'pandas', 'xarray'):
+            compare_run(ck, fe, 'no-time-axis', notime, cs, run_frontend(ck.runner, fe, notime, src), expected)
     labelled = Table(5, missing={'a': {2}}, index_labels=[10, 11, 12, 13, 14])
     for setname, contexts in context_sets(False)[:2]:
         src = make_config_source(contexts)
